@@ -177,6 +177,16 @@ impl<'a, I: Read, O: Write> VisitProgram for ExecStmt<'a, I, O> {
             Block::NonEmpty(statements) => {
                 for s in statements {
                     self.visit_statement(s)?;
+                    #[cfg(rrss_verif)]
+                    self.env.borrow().verif_emit_stmt(
+                        crate::frontend::source_range::Line::line(s),
+                        match self.control_flow_state {
+                            ControlFlowState::Normal => "normal",
+                            ControlFlowState::Breaking => "breaking",
+                            ControlFlowState::Continuing => "continuing",
+                            ControlFlowState::Returning => "returning",
+                        },
+                    );
                     if self.control_flow_state.skip_rest_of_block() {
                         break;
                     }
